@@ -353,6 +353,50 @@ func ruleRefcount(c *core.Ctx) {
 	}
 	c.Check(kp != "" && kp != "?" && kp == km, rule, "bus.proxy.SubscribeID/key", fn.Pos(), "increment and decrement use the same key format "+kp,
 		"the subscriber count is incremented and decremented under different keys")
+	// the key names the subscription: it is built from every value that identifies
+	// what was subscribed to (the arguments given to Client.Subscribe)
+	{
+		var subArgs []ssa.Value
+		for _, call := range core.Calls(fn) {
+			cc := call.Common()
+			if cc.IsInvoke() && cc.Method.Name() == "Subscribe" && len(cc.Args) == 3 {
+				subArgs = cc.Args
+			}
+		}
+		same := func(a, b ssa.Value) bool {
+			a, b = core.StripConv(core.Canon(a)), core.StripConv(core.Canon(b))
+			if a == b || core.SameValue(a, b) {
+				return true
+			}
+			pa, pb := core.AccessPath(a), core.AccessPath(b)
+			return len(pa.Fields) > 0 && pa.String() == pb.String()
+		}
+		bad := ""
+		n := 0
+		for _, st := range states {
+			if st.delta != 1 && st.delta != -1 {
+				continue
+			}
+			n++
+			vals := sprintfOperands(st.key)
+			for i, a := range subArgs {
+				found := false
+				for _, v := range vals {
+					if same(a, v) {
+						found = true
+					}
+				}
+				if !found {
+					bad = fmt.Sprintf("the subscriber count at %s is kept under a key that does not contain argument %d of Client.Subscribe (service, object, signal): subscriptions that differ only in that value share one count, so the second one never registers with the service and receives nothing", c.Pos(st.call.Pos()), i+1)
+				}
+			}
+		}
+		if len(subArgs) == 3 && n > 0 {
+			c.Check(bad == "", rule, "bus.proxy.SubscribeID/key-identifies", fn.Pos(), "the count key is built from service, object and signal id", bad)
+		} else {
+			c.Undecided(rule, "bus.proxy.SubscribeID/key-identifies", fn.Pos(), "Client.Subscribe call or counter updates not found")
+		}
+	}
 	// the remote registration id kept under the ".handler" key: what the
 	// register path adds (a non-constant amount) the unregister path must take
 	// back (State(k, -State(k, 0))), otherwise the next cycle unregisters a
@@ -540,4 +584,34 @@ func sliceElem(t types.Type) types.Type {
 		return sl.Elem()
 	}
 	return t
+}
+
+// sprintfOperands lists the values formatted by the fmt.Sprintf call that
+// produced key (through the varargs array go/ssa builds).
+func sprintfOperands(key ssa.Value) []ssa.Value {
+	cr, _ := core.CallResult(core.Canon(key))
+	if cr == nil || cr.Call.StaticCallee() == nil || core.FuncKey(cr.Call.StaticCallee()) != "fmt.Sprintf" || len(cr.Call.Args) < 2 {
+		return nil
+	}
+	sl, ok := cr.Call.Args[1].(*ssa.Slice)
+	if !ok {
+		return nil
+	}
+	var out []ssa.Value
+	for _, r := range core.Referrers(sl.X) {
+		ia, ok := r.(*ssa.IndexAddr)
+		if !ok {
+			continue
+		}
+		for _, u := range core.Referrers(ia) {
+			if st, ok := u.(*ssa.Store); ok && st.Addr == ssa.Value(ia) {
+				v := st.Val
+				if mi, ok := v.(*ssa.MakeInterface); ok {
+					v = mi.X
+				}
+				out = append(out, v)
+			}
+		}
+	}
+	return out
 }
